@@ -1,0 +1,7 @@
+//go:build !verif
+
+package paths
+
+import "github.com/compose-spec/compose-go/v2/tree"
+
+func verifTable(map[tree.Path]resolver) {}
